@@ -184,6 +184,8 @@ class Sim:
         """Build thunk for a 'call' op: {"fn": qual|inst.meth, "nargs": n, "kw": [names]}"""
 
         def thunk(v, env):
+            if op.get("attr"):
+                return self.lookup(v, op["fn"])  # property access
             target = v.tooled.get(op["fn"]) or self.lookup(v, op["fn"])
             args = [env._fresh() for _ in range(op.get("nargs", 0))]
             kw = {k: env._fresh() for k in op.get("kw", [])}
